@@ -15,7 +15,10 @@ Stated grammar bound (a "card" is an abstract decay description, rendered into a
   * particle keys J, P/Par, mass/m0, width/g0, model/bw, float, m_min/m_max; J in {0, 1/2, 1, 3/2, 2}, P in {+1,-1};
     a resonance may have the "wrong" spin class (integer where half-integer is needed): no integer L exists => forbidden;
   * one `$include` (YAML file in a scratch directory) holding some of the property dicts / candidate lists, optionally
-    overridden key by key from the main card;
+    overridden key by key from the main card, the table and the local override spelled with canonical keys or with aliases independently;
+    the table may also be handed over as a `share_dict` entry instead of a file;
+  * sequences of two / three DIFFERENT cards (same decay structure, other J / P / mass / width hypotheses for included resonances) loaded one after
+    the other in one process against one shared table (one share_dict object / one unchanged file);
   * key-order permutations of the `particle` and `decay` sections (all if the section has <= 4 keys, a seeded sample otherwise).
 
 Every right-hand side (which chains must exist, which (L,S) survive, what an alias / include / candidate list expands to)
@@ -73,19 +76,24 @@ def observe(config):
             ls[str(d)] = [[_num(l), _num(s_)] for l, s_ in d.get_ls_list()]
     s["particles"] = parts
     s["ls"] = ls
+    # the line-shape class each particle was built with (the `model` / `bw` key selects it)
+    s["models"] = {str(p): type(p).__name__ for ch in dg for p in ch.get_all_particles()}
     # the topology-level structure (slot names, no cuts) the loader keeps next to the full decay group
     s["struct_chains"] = [[[str(d.core), [str(o) for o in d.outs]] for d in ch] for ch in config.get_decay(False)]
     return s
 
 
-def summarise(ConfigLoader, cfg, export=False, same_object=False):
+def summarise(ConfigLoader, cfg, export=False, same_object=False, share_dict=None):
     """load one configuration (dict, or path of a YAML file) through the public entry points and return a JSON-able summary;
     an exception of the code under contract is recorded (a configuration of the stated grammar that fails to load refutes the
-    relevant clause).  same_object: hand the caller's dict itself to the loader (repeated loads of one object)"""
+    relevant clause).  same_object: hand the caller's dict itself to the loader (repeated loads of one object).
+    share_dict: the caller's `share_dict` (name -> already parsed table that `$include: name` resolves to); the object itself is
+    handed over, as a user who loads several cards against one table does"""
     s = {"error": None}
     try:
         with contextlib.redirect_stdout(io.StringIO()):
-            config = ConfigLoader(cfg if same_object else copy.deepcopy(cfg))
+            cfg_in = cfg if same_object else copy.deepcopy(cfg)
+            config = ConfigLoader(cfg_in) if share_dict is None else ConfigLoader(cfg_in, share_dict=share_dict)
             s.update(observe(config))
             if export:
                 s["export"] = _plain(config.get_decay().as_config())
@@ -105,7 +113,9 @@ def summarise(ConfigLoader, cfg, export=False, same_object=False):
 def fresh_main(ConfigLoader, tf_pwa_file, path_in, path_out):
     """entry point of the fresh interpreter"""
     job = json.load(open(path_in))
-    out = {"tf_pwa_file": tf_pwa_file, "hashseed": os.environ.get("PYTHONHASHSEED"), "summaries": [summarise(ConfigLoader, c) for c in job["configs"]]}
+    shares = job.get("share_dicts") or [None] * len(job["configs"])  # one private (JSON-decoded) share_dict per configuration, or None
+    out = {"tf_pwa_file": tf_pwa_file, "hashseed": os.environ.get("PYTHONHASHSEED"),
+           "summaries": [summarise(ConfigLoader, c, share_dict=sd) for c, sd in zip(job["configs"], shares)]}
     json.dump(out, open(path_out, "w"))
 
 
@@ -128,14 +138,15 @@ _VERIF = os.path.dirname(os.path.dirname(os.path.dirname(os.path.abspath(__file_
 class Fresh:
     """one fresh interpreter (different PYTHONHASHSEED) that loads a whole batch of configurations"""
 
-    def __init__(self, cfgs, hashseed, tmp):
+    def __init__(self, cfgs, hashseed, tmp, share_dicts=None):
         from vt.core import loader
 
         self.repo = loader.repo()
         self.hashseed = str(hashseed)
         self.fin = os.path.join(tmp, "fresh_in_%s.json" % self.hashseed)
         self.fout = os.path.join(tmp, "fresh_out_%s.json" % self.hashseed)
-        json.dump({"configs": cfgs}, open(self.fin, "w"))
+        assert share_dicts is None or len(share_dicts) == len(cfgs)
+        json.dump({"configs": cfgs, "share_dicts": share_dicts}, open(self.fin, "w"))
         env = dict(os.environ, PYTHONPATH=self.repo, PYTHONHASHSEED=self.hashseed, TF_CPP_MIN_LOG_LEVEL="3", CUDA_VISIBLE_DEVICES="",
                    PYTHONDONTWRITEBYTECODE="1", PYTHONWARNINGS="ignore")
         self.n = len(cfgs)
@@ -498,7 +509,9 @@ def render(card, style=None, tmp=None):
     """-> (config dict, {include path: YAML text}).
     style["alias"]: {particle: set of expanded keys spelled by alias};  style["cand"]: "list" | "expanded";
     style["include"]: {"move": [particle-section keys written to the included file], "stale": {name: {key: wrong value}}}:
-    the included file then carries the wrong value and the main card the right one (explicit entries win key by key)"""
+    the included file then carries the wrong value and the main card the right one (explicit entries win key by key);
+    optional "local_alias": {name: expanded keys the LOCAL override spells by alias}, "share": name (table handed over through share_dict,
+    returned as files[name], nothing written), "path": explicit file (written only if it does not exist yet)"""
     st = default_style()
     st.update(style or {})
     top, finals = card["top"], card["finals"]
@@ -545,18 +558,34 @@ def render(card, style=None, tmp=None):
     if st["include"]:
         import yaml
 
+        spec = st["include"]
         inc = {}
-        for k in st["include"]["move"]:
+        for k in spec["move"]:
             inc[k] = copy.deepcopy(psec.pop(k))
-        for name, wrong in st["include"].get("stale", {}).items():
+        for name, wrong in spec.get("stale", {}).items():
+            # `wrong`: {expanded key name: the value the TABLE carries}; the card keeps the right value of exactly these keys.
+            # The table entry is spelled as style["alias"] says, the local entry as spec["local_alias"] says (default: like the table)
+            al = st["alias"].get(name, ())
+            lal = spec.get("local_alias", {}).get(name, al)
             full = inc[name]
-            right = {k: full[k] for k in wrong}
-            full.update(wrong)
-            psec[name] = right
-        path = os.path.join(tmp, "inc_%s_%d.yml" % (card["tag"], len(os.listdir(tmp))))
+            tkey = {k: _ALIAS[k] if (k in _ALIAS and k in al) else k for k in wrong}
+            psec[name] = {(_ALIAS[k] if (k in _ALIAS and k in lal) else k): full[tkey[k]] for k in wrong}
+            for k, v in wrong.items():
+                full[tkey[k]] = v
         text = yaml.safe_dump(inc, sort_keys=False)
-        with open(path, "w") as f:
-            f.write(text)
+        if spec.get("share"):
+            # `$include: name` resolved through the caller's share_dict {name: parsed table}: no file is written
+            path = spec["share"]
+        elif spec.get("path"):
+            # a table file shared by several cards: written once, never rewritten (the caller checks that every card renders the same text)
+            path = spec["path"]
+            if not os.path.exists(path):
+                with open(path, "w") as f:
+                    f.write(text)
+        else:
+            path = os.path.join(tmp, "inc_%s_%d.yml" % (card["tag"], len(os.listdir(tmp))))
+            with open(path, "w") as f:
+                f.write(text)
         files[path] = text
         psec["$include"] = path
     if st["porder"] is not None:
@@ -625,6 +654,8 @@ def first_diff(a, b, ordered=True, struct=False):
         return "bound_dic"
     if not same_numbers(a["particles"], b["particles"]):
         return "quantum_numbers"
+    if a.get("models") != b.get("models"):
+        return "particle_model_class"
     if not same_numbers(a["values"], b["values"]):
         return "parameter_values"
     return None
@@ -636,7 +667,7 @@ def _brief(s):
     return {"chains": ["; ".join("%s->%s" % (c, "+".join(o)) for c, o in ch) for ch in s["chains"]],
             "decay_struct_chains": ["; ".join("%s->%s" % (c, "+".join(o)) for c, o in ch) for ch in s.get("struct_chains", [])], "param_names": s.get("param_names"),
             "trainable_vars": s.get("trainable"), "bound_dic": s.get("bound_dic"), "particles(J,P,mass,width)": s.get("particles"),
-            "mass_width_values": s.get("values")}
+            "particle_model_class": s.get("models"), "mass_width_values": s.get("values")}
 
 
 def _card_brief(card):
@@ -922,10 +953,16 @@ def _wrong(rng, key, val):
     return round(val * 1.5 + 0.111, 3)  # mass / width
 
 
+_OVS = ("an included table written with %s and a local override of the same particle written with %s: the value given in the card wins key by key, "
+        "the other keys of the table are kept == the expanded card: ")
+
+
 @group(["C19"], "iface.C19/equivalence_export", _FUNCS + ["particle:DecayGroup.as_config", "particle:BaseParticle.as_config", "particle:BaseDecay.as_config"],
        env="tf", kind="B",
        bound=_GRAMMAR + "; 24 (quick) / 250 (thorough) seeded cards; per card: expanded spelling vs {all aliases m0/g0/Par/bw, seeded mixture, J written '1/2'}, "
-             "inline vs one $include {all resonance dicts moved, seeded subset moved, candidate lists moved, stale values in the file overridden key by key from the card}, "
+             "inline vs one $include {all resonance dicts moved, seeded subset moved, candidate lists moved, stale values in the file overridden key by key from the card, "
+             "stale P / mass / width / model of 1..2 resonances overridden with {table canonical, table alias} x {local canonical, local alias} keys, table as a file (even "
+             "cards) or as a share_dict entry (odd cards)}, "
              "candidate lists vs the decays enumerated candidate by candidate, flat vs nested single decays, one vs several option dicts; "
              "DecayGroup.as_config() before (JSON round trip) and after get_amplitude() reloaded through ConfigLoader",
        assumes=["as_config() does not export the HelicityDecay options l_list / model (constructor arguments, not kept in _kwargs): only chains and the quantum "
@@ -942,6 +979,10 @@ def c19_equivalence(ctx):
         "alias/mixed": "a seeded mixture of alias and expanded keys (and J written as the string '1/2') == expanded spelling: " + obs,
         "include/moved": "resonance property dicts (all / seeded subset) and candidate lists moved into one $include file == inline card: " + obs,
         "include/override": "a key given in the card overrides the value of the same key in the included file, the other keys of the file are kept: " + obs,
+        "include/override_spelling/table_canonical_local_canonical": _OVS % ("P / mass / width / model", "P / mass / width / model") + obs,
+        "include/override_spelling/table_canonical_local_alias": _OVS % ("P / mass / width / model", "Par / m0 / g0 / bw") + obs,
+        "include/override_spelling/table_alias_local_canonical": _OVS % ("Par / m0 / g0 / bw", "P / mass / width / model") + obs,
+        "include/override_spelling/table_alias_local_alias": _OVS % ("Par / m0 / g0 / bw", "Par / m0 / g0 / bw") + obs,
         "candidate_list/expanded": "slot candidate lists == the decays written out candidate by candidate: " + obs,
         "decay_item/forms": "flat vs nested single decay, one vs several option dicts == canonical form: " + obs,
         "yaml_file/dict": "the card written as a YAML file (aliases, '1/2' spins, $include) and loaded by file name == the expanded dict: " + obs,
@@ -949,12 +990,17 @@ def c19_equivalence(ctx):
         "export/reload_numbers": "ConfigLoader(json(DecayGroup.as_config())) has the same J, P, mass, width for every particle",
         "export_after_amplitude/reload": "as_config() taken after get_amplitude() (masses are variables) reloads to the same chains and J, P, mass, width",
         "export/idempotent": "exporting the reloaded structure gives the same particle and decay tables again (as sets)",
-        "coverage": "aliases, includes with overrides, two-candidate slots, bound_dic and floating mass/width occurred (non-vacuity)",
+        "coverage": "aliases, includes with overrides, two-candidate slots, bound_dic and floating mass/width occurred; the override-spelling clauses overrode "
+                    "each of P, mass, width, model on a particle of an allowed chain, through a file and through share_dict (non-vacuity)",
     }
     for k, c in cl.items():
         acc.declare(k, c)
     n_cards = 24 if quick else 250
-    cov = {"two_candidates": 0, "bound_dic": 0, "override": 0, "model_alias": 0, "half_integer": 0, "cand_list_in_include": 0}
+    cov = {"two_candidates": 0, "bound_dic": 0, "override": 0, "model_alias": 0, "half_integer": 0, "cand_list_in_include": 0,
+           "override_spelling_P": 0, "override_spelling_mass": 0, "override_spelling_width": 0, "override_spelling_model": 0,
+           "override_spelling_file": 0, "override_spelling_share_dict": 0}
+    # the override-spelling variants draw from their own stream: the evaluations of the other clauses do not depend on them
+    rng_sp = random.Random("%s/override_spelling" % ctx.seed)
     with scratch() as tmp:
         for i in range(n_cards):
             card, orc = gen_card(rng, "e%d" % i, 3 if i % 2 == 0 else 4, _WANTS[i % len(_WANTS)])
@@ -987,6 +1033,27 @@ def c19_equivalence(ctx):
                 stale[n] = {k: _wrong(rng, k, card["cands"][n][k] if k != "J" else card["cands"][n]["J"]) for k in ks}
             variants.append(("include/override", {"include": {"move": sub, "stale": stale}}))
             cov["override"] += 1
+            # table and local override spell the same quantity differently: "definition in the card overwrites the included one" whatever the spelling
+            in_allowed = [n for n in names if any(n in (d[0],) + d[1] for ch in orc["allowed"].values() for d in ch)]
+            first = rng_sp.choice([n for n in in_allowed if "model" in card["cands"][n]] or in_allowed)
+            targets = [first] + [n for n in names if n != first and rng_sp.random() < 0.4][:1]
+            ov = {}
+            for n in targets:
+                pr = card["cands"][n]
+                pool = [k for k in ("P", "mass", "width", "model") if k in pr]
+                ks = [k for k in pool if rng_sp.random() < 0.6] or [rng_sp.choice(pool)]
+                ov[n] = {k: ({"BW": "BWR", "BWR": "BW"}[pr[k]] if k == "model" else _wrong(rng_sp, k, pr[k])) for k in ks}
+            for k in ov[first]:
+                cov["override_spelling_" + k] += 1
+            via_share = i % 2 == 1
+            cov["override_spelling_share_dict" if via_share else "override_spelling_file"] += 1
+            for tsp in ("canonical", "alias"):
+                for lsp in ("canonical", "alias"):
+                    spec = {"move": names, "stale": ov, "local_alias": {n: set(_ALIAS) if lsp == "alias" else set() for n in names}}
+                    if via_share:
+                        spec["share"] = "Resonances_%s.yml" % card["tag"]
+                    variants.append(("include/override_spelling/table_%s_local_%s" % (tsp, lsp),
+                                     {"include": spec, "alias": {n: set(_ALIAS) if tsp == "alias" else set() for n in names}}))
             variants.append(("candidate_list/expanded", {"cand": "expanded"}))
             variants.append(("decay_item/forms", {"nested": False, "split_opts": True}))
             variants.append(("decay_item/forms", {"cand": "expanded", "nested": False}))
@@ -1003,6 +1070,10 @@ def c19_equivalence(ctx):
                         f.write(text)
                     files = dict(files, **{path: text})
                     s = summarise(ConfigLoader, path)
+                elif (sty.get("include") or {}).get("share"):
+                    import yaml
+
+                    s = summarise(ConfigLoader, cfg, share_dict={k: yaml.safe_load(t) for k, t in files.items()})
                 else:
                     s = summarise(ConfigLoader, cfg)
                 ctx.count(key=json.dumps(cfg) + name)
@@ -1062,3 +1133,198 @@ def _export_key(ex):
             parts[k] = ("res", json.dumps(v, sort_keys=True))
     decs = sorted({(core, json.dumps(item, sort_keys=True)) for core, items in ex["decay"].items() for item in items})
     return sorted(parts.items()), decs
+
+
+# ---------------------------------------------------------------------------------------------
+# group 4: one $include table shared by several DIFFERENT cards loaded one after the other in one process
+# ---------------------------------------------------------------------------------------------
+# family = one seeded card V0 that takes every resonance as the table has it, and the cards V1, V2 of the same decay structure that test another
+# hypothesis for some of the included resonances (local override of J / P / mass / width).  Every card of the family has its own expanded
+# form (no include), computed from the abstract card alone: what a card means does not depend on what was loaded before it.
+
+
+def _other_value(rng, key, props):
+    """another legal value of one property (J stays in its spin class, inside the grammar)"""
+    if key == "J":
+        pool = [HALF, 3 * HALF] if _is_half(props["J"]) else [Fraction(0), Fraction(1), Fraction(2)]
+        return rng.choice([j for j in pool if j != props["J"]])
+    if key == "P":
+        return -props["P"]
+    if key == "mass":
+        return round(props["mass"] + 0.037, 3)  # stays inside m_min / m_max (+-0.1) where these are given
+    return round(props["width"] * 1.5 + 0.011, 3)
+
+
+def _hypothesis_card(rng, card, must):
+    """-> (card, oracle, {name: [overridden keys]}): `card` with another hypothesis for 1..2 resonances, `must` among them; keeps >= 1 allowed chain
+    (a card without one is outside the grammar)"""
+    names = list(card["cands"])
+    for attempt in range(300):
+        v = copy.deepcopy(card)
+        targets = [must] + [n for n in names if n != must and rng.random() < 0.4][:1]
+        changed = {}
+        for n in targets:
+            ks = [k for k in ("J", "P", "mass", "width") if rng.random() < 0.5] or ["mass"]
+            if attempt >= 250:
+                ks = [k for k in ks if k in ("mass", "width")] or ["mass"]  # quantum numbers of this card admit no other allowed hypothesis
+            for k in ks:
+                v["cands"][n][k] = _other_value(rng, k, card["cands"][n])
+            changed[n] = ks
+        o = oracle(v)
+        if o["allowed"]:
+            return v, o, changed
+    raise RuntimeError("no hypothesis card with an allowed chain")
+
+
+@group(["C19"], "iface.C19/include_shared_table", _FUNCS + ["config_loader.decay_config:DecayConfig.load_config", "config_loader.config_loader:ConfigLoader.__init__"],
+       env="tf", kind="B",
+       bound=_GRAMMAR + "; 6 (quick) / 40 (thorough) seeded families {V0: every resonance dict (odd families: and the candidate lists) taken from one $include table; "
+             "V1, V2: the same card with J / P / mass / width of 1..2 included resonances overridden locally (V1 always overrides a resonance of an allowed chain of V0)}; "
+             "table given (a) as a share_dict entry, (b) as one YAML file written once; per family and table kind the load sequences V1,V0 / V1,V2,V0 / V0,V1,V0, "
+             "each on its own new share_dict object / file; reference loads of every card alone, on a private copy of the table, in one fresh interpreter "
+             "with a different PYTHONHASHSEED",
+       assumes=["the meaning of a card is its expanded form (included entries written in place, local keys replacing included keys), computed from the abstract card",
+                "randomly initialised parameter values are not part of the statement (as in iface.C19/determinism)"])
+def c19_include_shared_table(ctx):
+    import yaml
+
+    ConfigLoader = ctx.mod("config_loader").ConfigLoader
+    quick = ctx.tier == "quick"
+    rng = ctx.rng
+    acc = Acc(ctx)
+    obs = "same ordered chains, parameter names, trainable_vars, bound_dic, J/P/mass/width and model class per particle, mass/width parameter values"
+    cl = {"loadable": "every card of every sequence loads without an exception (in the check process and alone in the fresh interpreter)",
+          "coverage": "two- and three-card sequences, overrides of each of J, P, mass, width, every V1 visibly different from V0, candidate lists inside the table, "
+                      "3- and 4-body families occurred (non-vacuity)"}
+    for mode, what in (("share_dict", "the same share_dict entry"), ("yaml_file", "the same unchanged YAML file")):
+        cl[mode + "/first_card_equals_expanded"] = "the first card loaded against a new table (%s) == its expanded form: %s" % (what, obs)
+        cl[mode + "/later_card_equals_expanded"] = ("a card loaded AFTER one or two different cards that $include %s (and override some of its particles locally) == its own "
+                                                    "expanded form; nothing of the earlier cards' overrides is visible: %s" % (what, obs))
+        cl[mode + "/later_card_equals_fresh_process"] = ("a card loaded after one or two different cards that $include %s == the same card loaded alone, on a private copy of "
+                                                         "the table, in a fresh interpreter: %s" % (what, obs))
+        cl[mode + "/same_card_after_other_card"] = "V0, V1, V0 against %s: the third load gives the model of the first: %s" % (what, obs)
+    cl["share_dict/table_not_mutated"] = "after every load the caller's share_dict is what it was (same keys, key order, values at every depth)"
+    cl["yaml_file/file_not_modified"] = "after every load the included file has the same bytes and modification time"
+    for k, c in cl.items():
+        acc.declare(k, c)
+    n_fam = 6 if quick else 40
+    cov = {"two_card_sequences": 0, "three_card_sequences": 0, "override_J": 0, "override_P": 0, "override_mass": 0, "override_width": 0,
+           "first_override_visible_in_V0": 0, "families": 0, "candidate_list_in_table": 0, "body3": 0, "body4": 0}
+    SEQS = [("V1", "V0"), ("V1", "V2", "V0"), ("V0", "V1", "V0")]
+    with scratch() as tmp:
+        fams = []
+        fresh_cfgs, fresh_shares, fresh_idx = [], [], {}
+        for fi in range(n_fam):
+            base, borc = gen_card(rng, "t%d" % fi, 3 if fi % 2 == 0 else 4, _WANTS[fi % len(_WANTS)])
+            names = list(base["cands"])
+            in_allowed = [n for n in names if any(n in (d[0],) + d[1] for ch in borc["allowed"].values() for d in ch)]
+            must = rng.choice(in_allowed)
+            cards = {"V0": (base, borc, {})}
+            cards["V1"] = _hypothesis_card(rng, base, must)
+            cards["V2"] = _hypothesis_card(rng, base, rng.choice(names))
+            lists = [s for s, v in base["slots"].items() if v != [s]] if fi % 2 == 1 else []
+            alias = {n: {k for k in _ALIAS if rng.random() < 0.5} for n in names}  # spelling of the table; a local override spells its keys the same way
+            jstr = rng.random() < 0.5
+
+            def rendered(v, cards=cards, base=base, alias=alias, jstr=jstr, lists=lists, names=names, **inc):  # bound per family
+                card, _, changed = cards[v]
+                # the table carries V0's value of every overridden key, the card its own
+                stale = {n: {k: (_jval(base["cands"][n]["J"], jstr) if k == "J" else base["cands"][n][k]) for k in ks} for n, ks in changed.items()}
+                return render(card, {"alias": alias, "jstr": jstr, "include": dict({"move": lists + names, "stale": stale}, **inc)}, tmp)
+
+            name = "Resonances_%s.yml" % base["tag"]
+            text = rendered("V0", share=name)[1][name]
+            fam = {"fi": fi, "cards": cards, "table_text": text, "share_name": name, "rendered": rendered, "expanded": {},
+                   "brief": {v: dict(_card_brief(c[0]), overridden_keys=c[2]) for v, c in cards.items()}}
+            for v in cards:
+                # reference loads in the fresh interpreter: the card alone, on its own copy of the table
+                cfg_s, fs = rendered(v, share=name)
+                assert fs[name] == text, "machinery: the cards of a family do not render the same table"
+                fresh_idx[(fi, "share_dict", v)] = len(fresh_cfgs)
+                fresh_cfgs.append(cfg_s)
+                fresh_shares.append({name: yaml.safe_load(text)})
+                priv = os.path.join(tmp, "private_%s_%s.yml" % (base["tag"], v))
+                cfg_f, ff = rendered(v, path=priv)
+                assert ff[priv] == text and open(priv).read() == text
+                fresh_idx[(fi, "yaml_file", v)] = len(fresh_cfgs)
+                fresh_cfgs.append(cfg_f)
+                fresh_shares.append(None)
+            fams.append(fam)
+            cov["families"] += 1
+            cov["body3" if base["body"] == 3 else "body4"] += 1
+            cov["candidate_list_in_table"] += bool(lists)
+            for v in ("V1", "V2"):
+                for ks in cards[v][2].values():
+                    for k in ks:
+                        cov["override_" + k] += 1
+        fresh = Fresh(fresh_cfgs, _other_hashseeds(1)[0], tmp, share_dicts=fresh_shares)
+        for fam in fams:
+            for v, (card, _, _) in fam["cards"].items():
+                cfg, _ = render(card)
+                fam["expanded"][v] = (summarise(ConfigLoader, cfg), cfg)
+                ctx.count(key=("expanded", json.dumps(cfg)))
+        fresh_out = fresh.result()
+        nload = 0
+        for fam in fams:
+            fi, text, name = fam["fi"], fam["table_text"], fam["share_name"]
+            ex = fam["expanded"]
+            bad = [(v, s) for v, (s, _) in ex.items() if s["error"]] + \
+                  [(v, fresh_out[fresh_idx[(fi, m, v)]]) for m in ("share_dict", "yaml_file") for v in ex if fresh_out[fresh_idx[(fi, m, v)]]["error"]]
+            acc.add("loadable", not bad, "exception while loading a reference", dict(family=fam["brief"], card=bad[0][0], error=bad[0][1]["error"],
+                                                                                    traceback=bad[0][1].get("traceback")) if bad else None)
+            if bad:
+                continue
+            d10 = first_diff(ex["V1"][0], ex["V0"][0], ordered=False)
+            cov["first_override_visible_in_V0"] += d10 is not None
+            for mode in ("share_dict", "yaml_file"):
+                for si, seq in enumerate(SEQS):
+                    # a new table per sequence: what is observed in a sequence can only come from the loads of that sequence
+                    if mode == "share_dict":
+                        share = {name: yaml.safe_load(text)}
+                        frozen = json.dumps(share)
+                        inc = {"share": name}
+                        path = None
+                    else:
+                        share, frozen = None, None
+                        path = os.path.join(tmp, "Resonances_%s_%d.yml" % (fam["cards"]["V0"][0]["tag"], si))
+                        inc = {"path": path}
+                    cov["two_card_sequences" if len(seq) == 2 else "three_card_sequences"] += 1
+                    got, stamp = [], None
+                    for k, v in enumerate(seq):
+                        cfg, files = fam["rendered"](v, **inc)
+                        assert list(files.values()) == [text]
+                        if path is not None and stamp is None:
+                            stamp = (open(path, "rb").read(), os.stat(path).st_mtime_ns)
+                        s = summarise(ConfigLoader, cfg, share_dict=share)
+                        got.append(s)
+                        nload += 1
+                        ctx.count(key=(mode, fi, si, k), sample=_sample(nload, {"table": mode, "sequence": list(seq), "position": k, "config": cfg}))
+                        w = {"table_kind": mode, "table (shared by the cards of the sequence)": yaml.safe_load(text), "sequence": list(seq), "position": k,
+                             "configs_of_the_sequence": [fam["rendered"](x, **inc)[0] for x in seq[:k + 1]], "include_files": {} if path is None else {path: text},
+                             "share_dict_name": None if path is not None else name, "cards": {x: fam["brief"][x] for x in set(seq)}}
+                        acc.add("loadable", not s["error"], "exception while loading", dict(w, error=s["error"], traceback=s.get("traceback")))
+                        if mode == "share_dict":
+                            acc.add("share_dict/table_not_mutated", json.dumps(share) == frozen, "the loader changed the caller's share_dict",
+                                    dict(w, share_dict_before=json.loads(frozen), share_dict_after=_plain(share)))
+                        else:
+                            now = (open(path, "rb").read(), os.stat(path).st_mtime_ns)
+                            acc.add("yaml_file/file_not_modified", now == stamp, "the included file was rewritten", dict(w, file_after=now[0].decode(errors="replace")))
+                        if s["error"]:
+                            continue
+                        ref, rcfg = ex[v]
+                        d = first_diff(ref, s, ordered=True)
+                        acc.add(mode + ("/first_card_equals_expanded" if k == 0 else "/later_card_equals_expanded"), d is None,
+                                "%s differ from the expanded form of the card" % d, dict(w, differs_in=d, expanded_config=rcfg, expanded=_brief(ref), loaded=_brief(s)))
+                        if k > 0:
+                            fr = fresh_out[fresh_idx[(fi, mode, v)]]
+                            d = first_diff(fr, s, ordered=True)
+                            acc.add(mode + "/later_card_equals_fresh_process", d is None, "%s differ from the load of the same card alone in a fresh interpreter" % d,
+                                    dict(w, differs_in=d, fresh_interpreter=_brief(fr), loaded=_brief(s)))
+                    if seq[0] == seq[-1] and len(seq) == 3 and not got[0]["error"] and not got[2]["error"]:
+                        d = first_diff(got[0], got[2], ordered=True)
+                        acc.add(mode + "/same_card_after_other_card", d is None, "%s differ between the first and the third load" % d,
+                                dict(w, differs_in=d, first_load=_brief(got[0]), third_load=_brief(got[2])))
+        need = dict(cov, first_override_visible_in_V0=cov["first_override_visible_in_V0"] == cov["families"])
+        acc.add("coverage", all(bool(x) for x in need.values()), "a feature never occurred / a V1 is indistinguishable from V0", {"coverage": cov})
+        ctx.count(key="coverage", sample={"families": n_fam, "loads_in_sequences": nload, "fresh_interpreter_loads": len(fresh_cfgs), "coverage": cov})
+    acc.flush()
